@@ -85,6 +85,7 @@ void n_hdr_h(void)           { EbBufferHeaderType *o = NULL; ERR(svt_av1_enc_str
 void n_hdr_out(void)         { ERR(svt_av1_enc_stream_header(mk_handle(), NULL)); V_END(); }
 void n_hdr_release(void)     { ERR(svt_av1_enc_stream_header_release(NULL)); V_END(); }
 void n_send_h(void)          { EbBufferHeaderType b; memset(&b, 0, sizeof b); ERR(svt_av1_enc_send_picture(NULL, &b)); V_END(); }
+void n_send_buf(void)        { EbComponentType *h = mk_handle(); EbErrorType r = svt_av1_enc_send_picture(h, NULL); V_ASSERT(r == EB_ErrorNone || r == EB_ErrorBadParameter, "NULL picture header handled (documented status)"); V_END(); }
 void n_getpkt_h(void)        { EbBufferHeaderType *p = NULL; unsigned char d = (unsigned char)vinbool(); ERR(svt_av1_enc_get_packet(NULL, &p, d)); V_END(); }
 void n_getpkt_buf(void)      { EbComponentType *h = mk_handle(); unsigned char d = (unsigned char)vinbool(); ERR(svt_av1_enc_get_packet(h, NULL, d)); V_END(); }
 void n_release_null(void)    { svt_av1_enc_release_out_buffer(NULL); V_END(); }
